@@ -128,14 +128,14 @@ DTYPES = ['f', 'i', 'h']                           # float64, int64, float32 (ex
 def pick_kind(d, i): return KINDS1[i % 3] if d == 1 else KINDS2[i % 4]
 
 
-def gen_nested_case(rng, lengths, n_xs, has_xs, length, d=None, kind=None, xkind=None, okind=None, dtype=None, xform=None):
+def gen_nested_case(rng, lengths, n_xs, has_xs, length, d=None, kind=None, xkind=None, okind=None, dtype=None, xform=None, tame=False):
     d = d or int(rng.integers(1, 4))
     kind = kind or pick_kind(d, int(rng.integers(0, 12)))
     okind = okind or OKINDS[int(rng.integers(0, 4))]
     m = 0 if okind == 'none' else int(rng.integers(2, 4)) if okind in ('tuple', 'array2') else int(rng.integers(1, 4))
     if okind == 'array2': okind = 'array'
     xkind = xkind or XKINDS[int(rng.integers(0, 4))]
-    A = rand_mat(rng, d, d); b = rand_vec(rng, d); init = rand_vec(rng, d)
+    A = rand_mat(rng, d, d, 1 if tame else 2); b = rand_vec(rng, d); init = rand_vec(rng, d)   # tame: growth linear in the step count
     P = rand_mat(rng, m, d) if m else []; Q = rand_mat(rng, m, d) if m else []
     xs = None
     if has_xs:
@@ -145,6 +145,8 @@ def gen_nested_case(rng, lengths, n_xs, has_xs, length, d=None, kind=None, xkind
             xs = {'s': rand_vec(rng, n_xs), 'v': [rand_vec(rng, d) for _ in range(n_xs)]}
         elif xkind == 'mat':
             xs = {'w': [[rand_vec(rng, 2) for _ in range(d)] for _ in range(n_xs)]}
+        elif xkind == 'many':      # one scanned leaf per state component (>= 9 leaves for d >= 9)
+            xs = {'k%02d' % j: rand_vec(rng, n_xs) for j in range(d)}
         else:
             xs = {'v': [rand_vec(rng, d) for _ in range(n_xs)]}
     return dict(d=d, m=m, A=A, b=b, P=P, Q=Q, init=init, xs=xs, xkind=xkind, n_xs=n_xs, length=length,
@@ -195,6 +197,15 @@ def generate(ctx):
                 yield 'traj', dict(d=d, A=A, b=b, x0=x0, outer=outer, inner=inner, swi=swi, post=post, filters=fl,
                                    kind=pick_kind(d, cnt), again=int(cnt % 3 == 0), jit=int(cnt % 8 == 5),
                                    dtype=DTYPES[(cnt // 3) % 3] if small else DTYPES[(cnt // 3) % 2])
+    for j, (outer, inner, d, kind) in enumerate([(50, 40, 2, 'dict'), (3, 700, 9, 'many')] if quick else
+                                                [(50, 40, 2, 'dict'), (3, 700, 9, 'many'), (1500, 1, 3, 'tuple'), (1, 2003, 1, 'zerod'), (37, 41, 10, 'many')]):
+        A = rand_mat(rng, d, d, 1); b = rand_vec(rng, d); x0 = rand_vec(rng, d)
+        post = dict(m=2, P=rand_mat(rng, 2, d), p=rand_vec(rng, 2), tree=j % 2) if j % 2 == 0 else None
+        ctx.count('traj long')
+        yield 'traj', dict(d=d, A=A, b=b, x0=x0, outer=outer, inner=inner, swi=j % 2, post=post, filters=[[0, 1, 1]] * (j % 2),
+                           kind=kind, again=0, jit=0, dtype=['f', 'i'][j % 2])
+    for j, (n, d, kind) in enumerate([(3001, 9, 'many')] if quick else [(3001, 9, 'many'), (1024, 2, 'dict'), (4999, 1, 'zerod')]):
+        yield 'repeated', dict(d=d, A=rand_mat(rng, d, d, 1), b=rand_vec(rng, d), x0=rand_vec(rng, d), n=n, kind=kind, dtype=['i', 'f'][j % 2])
     # --- nested_checkpoint_scan: every ordered factorisation --------------------
     ns = [1, 2, 4, 6, 8, 12] if quick else list(range(1, 25))
     cnt = 0
@@ -220,6 +231,16 @@ def generate(ctx):
         yield 'nested', gen_nested_case(rng, lengths, n, True, [None, n][j % 2], d=2 + j % 2, kind=KINDS2[j % 4], xkind='mat',
                                         okind='dictmat', xform=['np_view', 'jnp'][j % 2])
         yield 'nested', gen_nested_case(rng, lengths, n, j % 2 == 0, n, d=1, kind=KINDS1[1 + j % 2], xkind='dict', okind='tuple')
+    # long scans: thousands of steps, many nesting levels, prime lengths, >= 9 leaves in carry / inputs
+    longs = [([2] * 11, 'array', 'dict', 2), ([1009], 'many', 'many', 9), ([7, 11, 13], 'dict', 'mat', 3)]
+    if not quick:
+        longs += [([2, 3, 5, 7, 11], 'many', 'array', 9), ([3, 1009], 'tuple', 'scalar', 2), ([4096], 'col', 'many', 3),
+                  ([1, 1, 2, 1, 1009], 'many', 'many', 10), ([2] * 12, 'zerod', 'dict', 1), ([53, 59], 'many', 'dict', 12)]
+    for j, (lengths, kind, xkind, d) in enumerate(longs):
+        n = math.prod(lengths)
+        ctx.count('nested long n=%d depth=%d' % (n, len(lengths)))
+        yield 'nested', gen_nested_case(rng, lengths, n, j % 3 != 2 or xkind == 'many', [None, n][j % 2], d=d, kind=kind, xkind=xkind,
+                                        okind=['array', 'dictmat', 'tuple'][j % 3], dtype=['f', 'i'][j % 2], tame=True)
     # zero-length levels, as coded: tolerated only in the last position
     for lengths, n in [([3, 0], 0), ([0], 0), ([2, 2, 0], 0)]:
         yield 'nested', gen_nested_case(rng, lengths, n, True, None, okind='array')
@@ -264,20 +285,35 @@ def generate(ctx):
         w = [float(v) / 4 for v in rng.integers(-8, 9, size=n)]
         ctx.count(f'accumulate n={n}')
         yield 'accumulate', dict(d=d, A=A, b=b, x0=x0, weights=w, kind=pick_kind(d, i), wform=['jnp', 'np_ro'][i % 2])
+    for j, (n, d, kind) in enumerate([(1009, 9, 'many')] if quick else [(1009, 9, 'many'), (2048, 2, 'tuple'), (3000, 12, 'many')]):
+        yield 'accumulate', dict(d=d, A=rand_mat(rng, d, d, 1), b=rand_vec(rng, d), x0=rand_vec(rng, d),
+                                 weights=[float(v) / 4 for v in rng.integers(-8, 9, size=n)], kind=kind, wform=['np_ro', 'jnp'][j % 2])
+    # non-dyadic weights and data (a single-precision intermediate would show at 1e-8): decided at the 2^-36 policy
+    for j in range(2 if quick else 6):
+        d = 1 + j % 3; n = [7, 12, 40][j % 3]
+        yield 'accumulate', dict(d=d, A=rand_mat(rng, d, d, 1), b=[float(v) / 10 for v in rng.integers(-9, 10, size=d)],
+                                 x0=[float(v) / 7 for v in rng.integers(-9, 10, size=d)],
+                                 weights=[float(v) / 30 for v in rng.integers(-29, 30, size=n)], kind=pick_kind(d, j), wform=['jnp', 'np_ro'][j % 2],
+                                 nondyadic=1)
     # --- digital filter initialisation -----------------------------------------
     # (time_span, cutoff, dt): half-even rounding cases, N = 0, negative time direction, dt over decades
     cfgs = [(6.0, 6.0, 0.5), (5.0, 4.0, 0.5), (7.0, 5.0, 1.0), (5.0, 6.0, 1.0), (0.4, 1.0, 0.5), (-3.0, 2.0, -0.5), (0.006, 0.005, 0.001),
             (3.0, 2.5, 0.25), (1.0, 1.0, 0.5), (3.0, 3.0, 0.5), (600.0, 500.0, 100.0), (12.0, 10.0, 0.25), (-5.0, -4.0, -0.5)]
-    for i, (ts, cp, dt) in enumerate(cfgs[: (7 if quick else 13)] * (1 if quick else 2)):
+    # time_span/(2 dt) one ulp below an integer in floating point (2.9999999999999996, 5.999999999999999, ...): round, not truncation
+    ulp = [(0.6, 0.5, 0.1), (1.4, 1.0, 0.1), (1.2, 1.5, 0.1), (0.3, 0.3, 0.05)]
+    # the same problem in another time unit: (time_span, cutoff, dt) * 2^k and rates * 2^-k
+    scaled = [(6.0, 6.0, 0.5, -30), (5.0, 4.0, 0.5, 30), (7.0, 5.0, 1.0, 20), (3.0, 2.5, 0.25, -10), (0.6, 0.5, 0.1, 25), (-3.0, 2.0, -0.5, -20)]
+    full = [c + (0,) for c in (cfgs[:7] + ulp[:2] if quick else cfgs + ulp)] + (scaled[:2] if quick else scaled)
+    for i, (ts, cp, dt, tscale) in enumerate(full * (1 if quick else 2)):
         d = 2 + i % 2
         A = (rng.integers(-4, 5, size=(d, d)) / 8).tolist()
         dv = [float(v) / 8 for v in rng.integers(-4, 1, size=d)]
         dv[i % d] = -float(rng.integers(1, 4)) / 8 / max(1.0, abs(dt))    # the implicit part always depends on the step size
-        x0 = [float(v) / 2 for v in rng.integers(-6, 7, size=d)]
+        x0 = [float(v) / 2 for v in rng.integers(-6, 7, size=d)] if i % 4 else [float(v) / 10 for v in rng.integers(-30, 31, size=d)]
         fl = [[float(rng.integers(-1, 2)) / 8, 1.0 - float(rng.integers(0, 2)) / 8, float(rng.integers(-2, 3)) / 16] for _ in range(i % 3)]
         ctx.count(f'dfi N={round(ts / (2 * dt))}')
         yield 'dfi', dict(d=d, A=A, dv=dv, x0=x0, time_span=ts, cutoff=cp, dt=dt, filters=fl, solver=['bfe', 'cn'][i % 2],
-                          kind=KINDS2[i % 4])
+                          kind=KINDS2[i % 4], tscale=tscale)
         yield 'solver_step', dict(d=d, A=A, dv=dv, x0=x0, dt=dt, solver=['bfe', 'cn'][i % 2], kind=KINDS2[(i + 1) % 4])
     for i, (ts, cp, dt) in enumerate(cfgs[: (3 if quick else 8)]):
         d = 3
@@ -295,6 +331,7 @@ def pack(u, kind):
     if kind == 'dict': return {'p': u[:1], 'q': u[1:]}
     if kind == 'zerod': return u[0]
     if kind == 'col': return u[:, None]
+    if kind == 'many': return {'k%02d' % j: u[j] for j in range(u.shape[0])}     # one 0-d leaf per component
     return (u[0], u[1:])
 
 
@@ -305,6 +342,7 @@ def unpack(t, kind):
     if kind == 'dict': return jnp.concatenate([t['p'], t['q']], axis=-1)
     if kind == 'zerod': return t[..., None]
     if kind == 'col': return t[..., 0]
+    if kind == 'many': return jnp.stack([t[k] for k in sorted(t)], axis=-1)
     return jnp.concatenate([t[0][..., None], t[1]], axis=-1)
 
 
@@ -434,6 +472,7 @@ def _xs_vectors(a):
         if 's' in xs: v = [t + xs['s'][k] for t in v]
         if 'v' in xs: v = vadd(v, xs['v'][k])
         if 'w' in xs: v = vadd(v, [p_[0] + p_[1] for p_ in xs['w'][k]])
+        if 'k00' in xs: v = vadd(v, [xs['k%02d' % j][k] for j in range(d)])
         out.append(v)
     return out
 
@@ -450,6 +489,7 @@ def _mk_body(a):
             if 's' in x: c2 = c2 + x['s']
             if 'v' in x: c2 = c2 + x['v']
             if 'w' in x: c2 = c2 + x['w'][:, 0] + x['w'][:, 1]
+            if 'k00' in x: c2 = c2 + jnp.stack([x[k] for k in sorted(x)])
         if okind == 'none': return pack(c2, kind), None
         y = Pj @ c2 + Qj @ cu
         if okind == 'dictmat': return pack(c2, kind), {'a': y, 'M': jnp.stack([y, 2 * y], axis=-1)}
@@ -460,6 +500,8 @@ def _mk_body(a):
         if 's' in a['xs']: xs['s'] = arr(a['xs']['s'], dt, (a['n_xs'],))
         if 'v' in a['xs']: xs['v'] = arr(a['xs']['v'], dt, (a['n_xs'], d))
         if 'w' in a['xs']: xs['w'] = arr(a['xs']['w'], dt, (a['n_xs'], d, 2))
+        for k in a['xs']:
+            if k.startswith('k'): xs[k] = arr(a['xs'][k], dt, (a['n_xs'],))
         if a.get('xform') == 'np_view':
             # read-only, non-contiguous numpy views instead of jax arrays
             def view(l):
@@ -582,9 +624,16 @@ def r_accumulate(ctx, a):
     out = ti.accumulate_repeated(mk_step(a['A'], a['b'], kind, 'f'), wj, pack(arr(a['x0'], 'f'), kind))
     impl = frs(unpack(out, kind))
     ctx.oracle('accumulate_repeated leaves its weights untouched', np.array_equal(np.asarray(wj), wn), None)
-    ctx.exact('accumulate_repeated', impl, mfrs(ctx.model.call(5, [d], [flat(a['A']), a['b'], a['x0'], w])))
-    st = loop_states(a['A'], a['b'], [], a['x0'], len(w))
+    mod = ctx.model.call(5, [d], [flat(a['A']), a['b'], a['x0'], w])
+    st = loop_states(a['A'], [Fraction(v) for v in a['b']], [], [Fraction(v) for v in a['x0']], len(w))
     ref = [sum(Fraction(w[k]) * st[k + 1][i] for k in range(len(w))) for i in range(d)]
+    if a.get('nondyadic'):
+        scale = float(sum(abs(Fraction(w[k])) * max(abs(v) for v in st[k + 1]) for k in range(len(w)))) + 1e-300
+        ctx.corr('accumulate_repeated (non-dyadic data)', np.asarray(unpack(out, kind)), mod, scale=scale)
+        ctx.oracle_close('weighted accumulation equals sum_k w_k f^(k+1)(x) (non-dyadic data, exact rational reference)',
+                         np.asarray(unpack(out, kind)), np.array([float(v) for v in ref]), scale=scale)
+        return
+    ctx.exact('accumulate_repeated', impl, mfrs(mod))
     ctx.oracle('weighted accumulation equals sum_k w_k f^(k+1)(x)', impl == pfrs(ref), {'impl': impl, 'sum': pfrs(ref)})
 
 
@@ -705,8 +754,24 @@ def _weights_tables(ctx, ts, cp, dt):
     return ref, s1, s2
 
 
+def _dfi_eval(a):
+    jax, jnp, ti = J()
+    eq = _linear_eq(a['A'], a['dv'], a['kind'])
+    f = ti.digital_filter_initialization(eq, _solver(a['solver']), mk_filters(a['filters'], 'f'), a['time_span'], a['cutoff'], a['dt'])
+    return np.asarray(unpack(f(pack(arr(a['x0'], 'f'), a['kind'])), a['kind']))
+
+
 def r_dfi(ctx, a):
     jax, jnp, ti = J()
+    if a.get('tscale'):
+        # the same problem expressed in a time unit 2^k times smaller: identical result expected
+        sc = 2.0 ** a['tscale']
+        b = dict(a, tscale=0, time_span=a['time_span'] * sc, cutoff=a['cutoff'] * sc, dt=a['dt'] * sc,
+                 A=[[v / sc for v in row] for row in a['A']], dv=[v / sc for v in a['dv']])
+        base = _dfi_eval(a); scaled = _dfi_eval(b)
+        ctx.oracle_close('DFI is invariant under a dyadic change of the time unit (2^%d)' % a['tscale'], scaled, base,
+                         scale=float(np.abs(base).max()) + 1e-300)
+        a = b
     d, kind, dt, fl = a['d'], a['kind'], a['dt'], a['filters']
     eq = _linear_eq(a['A'], a['dv'], kind)
     f = ti.digital_filter_initialization(eq, _solver(a['solver']), mk_filters(fl, 'f'), a['time_span'], a['cutoff'], dt)
